@@ -90,7 +90,7 @@ func (a *asm) reg(avoidB bool) int {
 // must not be modified (inside DJNZ bodies).
 func (a *asm) straight(avoidB bool) {
 	r := a.r
-	switch r.Intn(30) {
+	switch r.Intn(32) {
 	case 0, 1:
 		a.emit(uint8(0x06|a.reg(avoidB)<<3), r.U8()) // LD r,n
 	case 2, 3:
@@ -210,6 +210,32 @@ func (a *asm) straight(avoidB bool) {
 			a.emit(0xed, uint8(0x40|[]int{1, 2, 3, 7}[r.Intn(4)]<<3)) // IN r,(C)
 		case 3:
 			a.emit(0xed, uint8(0x41|a.reg(false)<<3)) // OUT (C),r
+		}
+	case 30, 31:
+		// accumulator loads through BC / DE / (nn) from anywhere in memory (pseudo-random
+		// but fixed contents), away from the stack and the handler's private cell: these
+		// are the instructions that set the chip-internal MEMPTR register
+		addr := uint16(0x1000 + r.Intn(0xd000))
+		if addr >= 0x4f00 && addr < 0x5100 {
+			addr += 0x0800
+		}
+		lo, hi := a.w16(addr)
+		switch r.Intn(3) {
+		case 0:
+			if avoidB {
+				a.emit(0x11, lo, hi, 0x1a) // LD DE,nn ; LD A,(DE)
+			} else {
+				a.emit(0x01, lo, hi, 0x0a) // LD BC,nn ; LD A,(BC)
+			}
+		case 1:
+			a.emit(0x11, lo, hi, 0x1a) // LD DE,nn ; LD A,(DE)
+		case 2:
+			a.emit(0x3a, lo, hi) // LD A,(nn)
+		}
+		if r.Intn(3) == 0 {
+			// ... and a BIT on (HL) or (IX+d) soon after
+			dl, dh := a.w16(a.dataAddr())
+			a.emit(0x21, dl, dh, 0xcb, uint8(0x46|r.Intn(8)<<3))
 		}
 	case 29:
 		if a.o.Invalid {
